@@ -31,7 +31,8 @@ ASSUMPTIONS = [
 
 def r10_1(ctx, R, ms):
     ctx.rule("R10.1", "fused: no upstream poll in abstract state stream=None; U(None) is followed by SETNONE before the "
-                      "next U or the return")
+                      "next U or the return; SETNONE occurs only directly after U(None) (the upstream is never given up on any "
+                      "other evidence)")
     c05.r5_4(ctx, R)
     ctx.rule("R5.4", "see C05 R5.4 (shared): upstream polled only via as_pin_mut Some arm; None => set(None) must-pass-through")
     for m in ms:
@@ -55,6 +56,11 @@ def r10_1(ctx, R, ms):
                             break
                     if not ok:
                         bad.append((ev, "Ready(None) from upstream not followed by set(None)"))
+                # the upstream is given up only after it reported its own end (size_hint and the like are advisory)
+                if e[0] == "SETNONE":
+                    prev = [f for f in ev[:i] if f[0] in ("U", "SETNONE")]
+                    if not (prev and prev[-1][0] == "U" and prev[-1][1] == "None"):
+                        bad.append((ev, "upstream dropped (set(None)) without having returned Ready(None) in this call"))
         ctx.ob("R10.1", m.b, "fused-on-all-feasible-paths", not bad and n > 0, d_loc(m.b),
                "%d feasible paths; violating: %s" % (n, (ev_str(bad[0][0]) + " [" + bad[0][1] + "]") if bad else "-"))
 
@@ -248,3 +254,10 @@ def run(ctx):
     ctx.rule_texts.pop("R2.3", None)
     if res["INSERT"][0]:
         shared_links.adapter_links(ctx, R, res["INSERT"][0], res["INSERT"][1])
+        # a limit that does not reach the storage unchanged can stall the adapter (capacity 0) or truncate it
+        import c09
+        from adapters import AdapterModel as _AM
+        c09.r9_1(ctx, R, ms)
+        ctx.rule("R9.1", "see C09 R9.1 (shared): every adapter constructor builds its queue by the bounded `new` applied to its own limit parameter")
+        c09.r9_4(ctx, R, res["INSERT"][0], res["INSERT"][1])
+        ctx.rule("R9.4", "see C09 R9.4 (shared): the limit reaches the slot storage unchanged")
